@@ -37,43 +37,45 @@ fn plan_for(prop: &str) -> Option<Plan> {
     })
 }
 
-/// C20 (claimed partially): every engine is built with overflow checks and debug assertions, wraps
-/// each API call and each task root in catch_unwind, and labels an un-injected panic with C20.
-/// This check runs all engines with the hostile-value focus and reports only those clauses.
-fn check_c20(tier: Tier, seed: u64, get: &dyn Fn(&str) -> Option<String>, has: &dyn Fn(&str) -> bool) -> i32 {
+fn run_engine(name: &str, ba: &BatchArgs) -> (i32, serde_json::Value) {
+    match name {
+        "sinkfault" => run_batch_ev::<e1::E1>(ba),
+        "linebuf" => run_batch_ev::<e2::E2>(ba),
+        "queue" => run_batch_ev::<e3::E3>(ba),
+        "sockets" => run_batch_ev::<e5::E5>(ba),
+        "holder" => run_batch_ev::<e6::E6>(ba),
+        "macroproc" => run_batch_ev::<e7::E7>(ba),
+        _ => (2, serde_json::Value::Null),
+    }
+}
+
+/// A property served by more than one engine: run each part, merge into one evidence file.
+#[allow(clippy::too_many_arguments)]
+fn check_multi(prop: &str, tier: Tier, seed: u64, jobs: usize, parts: &[(&str, u64, u64, u64)], rule: &str, extra_cov: serde_json::Value, assumptions: Vec<String>, write: bool, scale: f64) -> i32 {
     let t0 = std::time::Instant::now();
-    let scale: f64 = get("--scale").and_then(|s| s.parse().ok()).unwrap_or(1.0);
-    let jobs = get("--jobs").and_then(|s| s.parse().ok()).unwrap_or_else(|| std::thread::available_parallelism().map(|n| n.get()).unwrap_or(4));
-    let mk = |runs_q: u64, runs_t: u64, sweep: u64| BatchArgs {
-        prop: "C20".to_string(),
-        tier,
-        seed,
-        runs: ((if tier == Tier::Quick { runs_q } else { runs_t }) as f64 * scale) as u64,
-        jobs,
-        sweep_every: sweep,
-        level_note: String::new(),
-        write_evidence: false,
-        extra: None,
-        max_wall_s: if tier == Tier::Quick { 60 } else { 900 },
-    };
-    let parts: Vec<(&str, (i32, serde_json::Value))> = vec![
-        ("sinkfault", run_batch_ev::<e1::E1>(&mk(60_000, 3_000_000, 20))),
-        ("linebuf", run_batch_ev::<e2::E2>(&mk(200_000, 10_000_000, 20))),
-        ("queue", run_batch_ev::<e3::E3>(&mk(60_000, 3_000_000, 0))),
-        ("sockets", run_batch_ev::<e5::E5>(&mk(40_000, 2_000_000, 0))),
-        ("holder", run_batch_ev::<e6::E6>(&mk(20_000, 1_000_000, 0))),
-        ("macroproc", run_batch_ev::<e7::E7>(&mk(600, 30_000, 0))),
-    ];
     let mut exit = 0;
     let mut evaluations = 0u64;
     let mut nontrivial = 0u64;
     let mut samples = Vec::new();
     let mut per_engine = serde_json::Map::new();
     let mut violations = 0u64;
-    for (name, (code, ev)) in &parts {
-        if *code == 1 {
+    for (name, rq, rt, sweep) in parts {
+        let ba = BatchArgs {
+            prop: prop.to_string(),
+            tier,
+            seed,
+            runs: ((if tier == Tier::Quick { *rq } else { *rt }) as f64 * scale) as u64,
+            jobs,
+            sweep_every: *sweep,
+            level_note: String::new(),
+            write_evidence: false,
+            extra: None,
+            max_wall_s: if tier == Tier::Quick { 90 } else { 1500 },
+        };
+        let (code, ev) = run_engine(name, &ba);
+        if code == 1 {
             exit = 1;
-        } else if *code != 0 && exit == 0 {
+        } else if code != 0 && exit == 0 {
             exit = 2;
         }
         let c = &ev["coverage"];
@@ -83,48 +85,82 @@ fn check_c20(tier: Tier, seed: u64, get: &dyn Fn(&str) -> Option<String>, has: &
         if let Some(s) = c["samples"].as_array().and_then(|a| a.first()) {
             samples.push(serde_json::json!({"engine": name, "case": s}));
         }
-        per_engine.insert(
-            name.to_string(),
-            serde_json::json!({
-                "evaluations": c["evaluations"], "distinct_nontrivial": c["distinct_nontrivial"], "api_calls": c["api_calls"],
-                "simulated_steps": c["simulated_steps"], "distinct_schedules": c["distinct_schedules"], "faults_fired": c["faults_fired"],
-                "probes": c["probes"], "real_vs_stub": c["real_vs_stub"], "harness_errors": c["harness_errors"], "replays": c["replays"],
-            }),
-        );
+        per_engine.insert(name.to_string(), c.clone());
     }
     let wall = t0.elapsed().as_secs_f64();
-    let ev = serde_json::json!({
-        "property_id": "C20",
-        "tier": tier.name(),
-        "seed": seed,
-        "level": "exploration",
-        "coverage": {
-            "evaluations": evaluations,
-            "distinct_nontrivial": nontrivial,
-            "rule": "sum over the six engines of their own distinct non-trivial cases (each engine's rule is in its own evidence file); every engine is built with -C overflow-checks=on -C debug-assertions=on, wraps each public API call and each simulated task root in catch_unwind and reports any panic it did not inject itself; generators include capacity 0/1/exact-fit buffers, queue capacity 0/1, empty / long / non-ASCII / delimiter-laden strings, NaN, +-inf, -0.0, i64::MIN, u64::MAX, Duration::MAX, empty and 3000-element packed lists",
-            "samples": samples,
-            "per_engine": per_engine,
-            "what_is_decided_by_simulation": "the history- and fault-dependent part: capacity - written never underflowing after failed flushes, lock().unwrap() after a panic elsewhere, counters not underflowing under any interleaving, unwinding through the worker",
-            "what_is_merely_exercised": "the pure-argument part (size-hint arithmetic, casts, formatting of extreme values): input generation riding on the harnesses, not simulation",
-            "runs_per_hour": (evaluations as f64 / wall * 3600.0).round(),
-        },
-        "assumptions": [
-            "claimed partially (DESIGN.md section 5.8): huge capacities and allocation failure are outside every generator; abort-on-double-panic inside a child process is reported as a harness error, not silently passed",
-            "sampling, not proof",
-        ],
-        "wall_s": wall,
-        "violations": violations,
+    let mut cov = serde_json::json!({
+        "evaluations": evaluations,
+        "distinct_nontrivial": nontrivial,
+        "rule": rule,
+        "samples": samples,
+        "per_engine": per_engine,
+        "runs_per_hour": (evaluations as f64 / wall.max(0.001) * 3600.0).round(),
     });
-    if !has("--no-evidence") {
-        if let Err(e) = write_evidence_file("C20", &ev) {
+    if let (Some(o), Some(e)) = (cov.as_object_mut(), extra_cov.as_object()) {
+        for (k, v) in e {
+            o.insert(k.clone(), v.clone());
+        }
+    }
+    let ev = serde_json::json!({
+        "property_id": prop, "tier": tier.name(), "seed": seed, "level": "exploration",
+        "coverage": cov, "assumptions": assumptions, "wall_s": wall, "violations": violations,
+    });
+    if write {
+        if let Err(e) = write_evidence_file(prop, &ev) {
             eprintln!("HARNESS-ERROR: {e}");
             if exit == 0 {
                 exit = 2;
             }
         }
     }
-    println!("{} C20 [{}] engines=6 runs={} violations={} wall={:.1}s", if exit == 0 { "PASS" } else if exit == 1 { "FAIL" } else { "ERROR" }, tier.name(), evaluations, violations, wall);
+    println!("{} {prop} [{}] engines={} runs={} violations={} wall={:.1}s", if exit == 0 { "PASS" } else if exit == 1 { "FAIL" } else { "ERROR" }, tier.name(), parts.len(), evaluations, violations, wall);
     exit
+}
+
+/// C20 (claimed partially): every engine is built with overflow checks and debug assertions, wraps
+/// each API call and each task root in catch_unwind, and labels an un-injected panic with C20.
+/// This check runs all engines with the hostile-value focus and reports only those clauses.
+fn check_c20(tier: Tier, seed: u64, get: &dyn Fn(&str) -> Option<String>, has: &dyn Fn(&str) -> bool) -> i32 {
+    let scale: f64 = get("--scale").and_then(|s| s.parse().ok()).unwrap_or(1.0);
+    let jobs = get("--jobs").and_then(|s| s.parse().ok()).unwrap_or_else(|| std::thread::available_parallelism().map(|n| n.get()).unwrap_or(4));
+    check_multi(
+        "C20",
+        tier,
+        seed,
+        jobs,
+        &[("sinkfault", 60_000, 3_000_000, 20), ("linebuf", 200_000, 10_000_000, 20), ("queue", 60_000, 3_000_000, 0), ("sockets", 40_000, 2_000_000, 0), ("holder", 20_000, 1_000_000, 0), ("macroproc", 600, 30_000, 0)],
+        "sum over the six engines of their own distinct non-trivial cases (each engine's rule is under per_engine); every engine is built with -C overflow-checks=on -C debug-assertions=on, wraps each public API call and each simulated task root in catch_unwind and reports any panic it did not inject itself; generators include capacity 0/1/exact-fit buffers, queue capacity 0/1, empty / long / non-ASCII / delimiter-laden strings, NaN, +-inf, -0.0, i64::MIN, u64::MAX, Duration::MAX, empty and 3000-element packed lists",
+        serde_json::json!({
+            "what_is_decided_by_simulation": "the history- and fault-dependent part: capacity - written never underflowing after failed flushes, lock().unwrap() after a panic elsewhere, counters not underflowing under any interleaving, unwinding through the worker",
+            "what_is_merely_exercised": "the pure-argument part (size-hint arithmetic, casts, formatting of extreme values): input generation riding on the harnesses, not simulation",
+        }),
+        vec![
+            "claimed partially (DESIGN.md section 5.8): huge capacities and allocation failure are outside every generator; abort-on-double-panic inside a child process is reported as a harness error, not silently passed".to_string(),
+            "sampling, not proof".to_string(),
+        ],
+        !has("--no-evidence"),
+        scale,
+    )
+}
+
+/// C06 is served by two engines: the line-buffering histories (E2) and flush / drop through a
+/// queuing wrapper around a real buffered sink (E3).
+fn check_c06(tier: Tier, seed: u64, get: &dyn Fn(&str) -> Option<String>, has: &dyn Fn(&str) -> bool) -> i32 {
+    let scale: f64 = get("--scale").and_then(|s| s.parse().ok()).unwrap_or(1.0);
+    let scale = get("--runs").and_then(|s| s.parse::<f64>().ok()).map(|r| r / 500_000.0).unwrap_or(scale);
+    let jobs = get("--jobs").and_then(|s| s.parse().ok()).unwrap_or_else(|| std::thread::available_parallelism().map(|n| n.get()).unwrap_or(4));
+    check_multi(
+        "C06",
+        tier,
+        seed,
+        jobs,
+        &[("linebuf", 500_000, 40_000_000, 25), ("queue", 80_000, 6_000_000, 0)],
+        "linebuf: fault-free histories of emit/flush/drop judged by the reference model (see per_engine.linebuf.rule); queue: histories in which a real BufferedUdpMetricSink sits behind a QueuingMetricSink and flush() is called through the queuing handle concurrently with the worker (see per_engine.queue.rule); distinct non-trivial counts are summed",
+        serde_json::json!({}),
+        vec!["underlying writes are all-or-nothing (datagram semantics); sockets are stubs".to_string(), "sampling, not proof".to_string()],
+        !has("--no-evidence"),
+        scale,
+    )
 }
 
 /// C18 second opinion (thorough tier): the unhooked SingletonHolder under Miri's seeded scheduler,
@@ -184,6 +220,9 @@ fn main() {
                 .unwrap_or(DEFAULT_SEED);
             if prop == "C20" {
                 std::process::exit(check_c20(tier, seed, &get, &has));
+            }
+            if prop == "C06" {
+                std::process::exit(check_c06(tier, seed, &get, &has));
             }
             let plan = match plan_for(&prop) {
                 Some(p) => p,
